@@ -37,6 +37,15 @@ func (w *World) pxAlwaysWrites(fn *ssa.Function, aw map[*ssa.Function]bool, leaf
 			}
 			return true
 		},
+		prune: func(fr *pxFrame, b *ssa.BasicBlock, st *pxState) bool {
+			// a path that has written is fine however it goes on
+			for _, e := range st.trace {
+				if e.Kind == "write" {
+					return true
+				}
+			}
+			return false
+		},
 		onReturn: func(fr *pxFrame, ret *ssa.Return, results []*Term, st *pxState) {
 			if !ok {
 				return
